@@ -161,6 +161,9 @@ func c08StateAdd(s c08State, k string) c08State {
 // c08Step is the (nondeterministic) sequential specification. It returns every state the
 // store may be in after the operation, or nothing when the observed result is impossible.
 //
+// A read (Has/Get/GetSize) of a closed store may fail, or be served correctly from what the store
+// still holds; an absent key is reported by any error (both recorded as beyond-statement outcomes).
+//
 // Deliberately unspecified (any result accepted): the result of a lifecycle call on a store
 // that is already closed, Roots on a closed store (ReadOnly.Roots has no closed check and
 // only fails when the file happens to be closed), identity-CID queries on a closed store (the
@@ -216,9 +219,10 @@ func c08Step(cfg c08Cfg, s c08State, in c08In, out c08Out) []interface{} {
 			}
 			return one(s.closed && out.Err, s)
 		}
-		if s.closed {
-			return one(out.Err, s)
+		if s.closed && out.Err {
+			return one(true, s)
 		}
+		// (a closed store that still answers must answer correctly)
 		return one(!out.Err && out.Found == c08StateHas(s, c08KeyOf(k, cfg.whole)), s)
 	case "get", "size":
 		k := in.Keys[0]
@@ -235,11 +239,13 @@ func c08Step(cfg c08Cfg, s c08State, in c08In, out c08Out) []interface{} {
 			}
 			return one(out.Err && (s.closed || (cfg.class(k) != c08IDFree && !present && out.NotFound)), s)
 		}
-		if s.closed {
-			return one(out.Err, s)
+		if s.closed && out.Err {
+			return one(true, s)
 		}
+		// (a closed store that still answers must answer correctly)
 		if !present {
-			return one(out.Err && out.NotFound, s)
+			// which error reports an absent key is not part of the statement
+			return one(out.Err, s)
 		}
 		return one(good, s)
 	case "roots":
@@ -312,6 +318,8 @@ type c08Env struct {
 	noFile bool
 	// extra, when set, adds scenario-specific observations after the run
 	extra func(add func(sig, f string, a ...any))
+	// beyond: what the last c08Check saw that the statement is silent about
+	beyond []string
 }
 
 type c08Scenario struct {
